@@ -40,14 +40,15 @@ type vrlReq struct {
 }
 
 type vrlH struct {
-	s      *Server
-	limit  int
-	lineNo int
-	mon    *bufio.Writer
-	hook   bool
-	vfirst map[string]int64 // shift mode: virtual time of the window start per key
-	hist   []vrlReq         // requests of the current history (for the statement-level monitors)
-	fired  map[string]int
+	s       *Server
+	limit   int
+	lineNo  int
+	mon     *bufio.Writer
+	hook    bool
+	vfirst  map[string]int64 // shift mode: virtual time of the window start per key
+	hist    []vrlReq         // requests of the current history (for the statement-level monitors)
+	fired   map[string]int
+	flooded int // addresses of FLOOD lines in the current history
 }
 
 func (h *vrlH) flag(name, detail string) {
@@ -72,6 +73,7 @@ func (h *vrlH) newServer(limit int) {
 		API: config.ConfigAPI{RateLimit: limit}})
 	h.vfirst = map[string]int64{}
 	h.hist = nil
+	h.flooded = 0
 }
 
 func (h *vrlH) send(s *Server, r vrlReq) (int, http.Header) {
@@ -151,7 +153,7 @@ func (h *vrlH) request(r vrlReq) string {
 		for _, q := range h.hist {
 			addrs[q.addr] = true
 		}
-		if len(keys) > len(addrs) {
+		if len(keys) > len(addrs)+h.flooded {
 			sort.Strings(keys)
 			h.flag("one-entry-per-address", fmt.Sprintf("%d entries for %d addresses: %v", len(keys), len(addrs), keys))
 		}
@@ -239,6 +241,28 @@ func (h *vrlH) apply(line string) string {
 		l, _ := strconv.Atoi(t[2])
 		h.newServer(l)
 		return "ok"
+	case len(t) == 3 && t[0] == "FLOOD":
+		// FLOOD <n> <time ns>: one request each from n addresses no other line uses, all at the same instant; then a pause in
+		// which whatever the limiter does in the background to its table can happen.  The accounting of the other addresses is
+		// not the flood's business (C19: per address): the requests are not part of the history the isolation monitor replays
+		if h.s == nil {
+			return "bad"
+		}
+		n, _ := strconv.Atoi(t[1])
+		ts, _ := strconv.ParseInt(t[2], 10, 64)
+		served := 0
+		for i := 0; i < n; i++ {
+			r := vrlReq{addr: 20000 + i, mode: "r", port: 4000, t: ts}
+			h.setClock(h.s, vrlIP(r.addr), r.t)
+			st, _ := h.send(h.s, r)
+			verifClockSet = false
+			if st == http.StatusOK {
+				served++
+			}
+		}
+		h.flooded += n
+		time.Sleep(150 * time.Millisecond)
+		return fmt.Sprintf("F %d", served)
 	case len(t) == 5 && t[0] == "REQ":
 		a, _ := strconv.Atoi(t[1])
 		p, _ := strconv.Atoi(t[3])
@@ -348,6 +372,15 @@ func TestVerifRateLimit(t *testing.T) {
 				mode = []string{"x", "l", "r", "r"}[r.Intn(4)]
 			}
 			emit(fmt.Sprintf("REQ %d %s %d %d", a, mode, 1024+r.Intn(60000), now))
+			// now and then: the address uses up its allowance, more than a thousand other addresses are seen at the same
+			// instant, and the address asks again within its accounting second - its count is its own whatever the table holds
+			if limit > 0 && h.hook && r.Intn(700) == 0 {
+				for j := 0; j <= limit; j++ {
+					emit(fmt.Sprintf("REQ %d %s %d %d", a, mode, 2000+j, now))
+				}
+				emit(fmt.Sprintf("FLOOD 1100 %d", now))
+				emit(fmt.Sprintf("REQ %d %s %d %d", a, mode, 3000, now+1))
+			}
 		}
 	}
 	h.endHistory(h.lineNo)
